@@ -104,9 +104,12 @@ pub fn calc_metadata(
     } else {
         let pre_gas_info_old =
             calc_gas_precost_info(program, program_info, pre_function_set_costs)?;
-        if !config.skip_non_linear_solver_comparisons {
-            pre_gas_info_old.assert_eq_variables(&pre_gas_info_new, program);
-            pre_gas_info_old.assert_eq_functions(&pre_gas_info_new);
+        // The program may be untrusted: a disagreement between the solvers is an error, not a panic.
+        if !config.skip_non_linear_solver_comparisons
+            && !(pre_gas_info_old.variables_diff(&pre_gas_info_new, program).is_empty()
+                && pre_gas_info_old.functions_diff(&pre_gas_info_new).is_empty())
+        {
+            return Err(CostError::SolvingGasEquationFailed.into());
         }
         pre_gas_info_old
     };
